@@ -164,8 +164,55 @@ def couple : P String := do
   let lg := s.log.map (fun e => s!"{e.1} {e.2.id}")
   pure (" ".intercalate (toString ids.length :: ids ++ [toString s.n, toString lg.length] ++ lg))
 
+/-- one host operation: `A id cls`, `C`, `R` (host.reset()), `S` (host step) -/
+def hop : P Coupling.HOp := do
+  let t ← tok
+  match t with
+  | "A" => do let i ← nat; let c ← nat; pure (Coupling.HOp.attach ⟨i, c⟩)
+  | "C" => pure Coupling.HOp.clear
+  | "R" => pure Coupling.HOp.reset
+  | "S" => pure Coupling.HOp.step
+  | _ => failure
+
+/-- c18.hcouple variant ops → attached ids (list order), host index, host steps ever, log of update calls
+(host step ever, host index, id)*; variant 0 = reset as it is (keeps the coupling list), 1 = reset detaches -/
+def hcouple : P String := do
+  let v ← nat; let ops ← lst hop
+  let s := Coupling.hrun (if v = 0 then Coupling.resetKeep else Coupling.resetDetach) Coupling.hinit ops
+  let ids := s.models.map (fun m => toString m.id)
+  let lg := s.log.map (fun e => s!"{e.1} {e.2.1} {e.2.2.id}")
+  pure (" ".intercalate (toString ids.length :: ids ++ [toString s.n, toString s.g, toString lg.length] ++ lg))
+
+def gstate (psd size bounds : List Float) : GState Float :=
+  ⟨psd.length, fn psd.toArray, fn bounds.toArray, fn size.toArray⟩
+
+/-- one grain-growth operation: `L raw` (either loader; raw on the initial grid), `R` (reset()),
+`E psd size bounds t` (state and clock after a solve call / coupled host step) -/
+def gop : P (Coupling.GOp Float) := do
+  let t ← tok
+  match t with
+  | "L" => do let raw ← flts; pure (Coupling.GOp.load (fn raw.toArray))
+  | "R" => pure Coupling.GOp.reset
+  | "E" => do
+      let psd ← flts; let size ← flts; let b ← flts; let t ← flt
+      pure (Coupling.GOp.evolve (gstate psd size b) t)
+  | _ => failure
+
+/-- c18.ggload variant size bounds ops → after every operation: psd, bounds, last clock entry, grain volume;
+variant 0 = backup after Normalize (the code), 1 = backup before Normalize -/
+def ggload : P String := do
+  let v ← nat; let size ← flts; let b ← flts; let ops ← lst gop
+  let grid := gstate (size.map (fun _ => 0.0)) size b
+  let tr := Coupling.traceG (v = 1) grid (Coupling.ggInit grid) ops
+  let out := tr.map (fun s =>
+    let n := s.cur.n
+    s!"{flist ((List.range n).map s.cur.psd)} {flist ((List.range (n+1)).map s.cur.bounds)} {fout (s.clock.getLastD 0.0)} {fout (Coupling.ggVolume s)}")
+  pure (" ".intercalate (toString out.length :: out))
+
 def handle (verb : String) : Option (P String) :=
   match verb with
+  | "c18.hcouple" => some hcouple
+  | "c18.ggload" => some ggload
   | "c18.gen" => some gen
   | "c18.strength" => some strength
   | "c18.prec" => some prec
